@@ -52,6 +52,17 @@ Theorem C14_whitespace_language :
         Some (Some (VSlice p (p + run_len toks f p), p + run_len toks f p, []), a').
 Proof. exact whitespace_lang. Qed.
 
+(* newline: CR LF as one terminator, a lone CR, or one character of the newline class; nothing else.
+   [newline_end] is the end of the match: after CR LF / CR / one class character, or None *)
+Theorem C14_newline_language :
+  forall K toks spn n fnl cr lf ctx p a,
+    exists a',
+      match newline_end toks fnl cr lf p with
+      | Some p' => exists v, sem K toks spn (S (S (S (S n)))) (text_newline (PFun fnl) cr lf) ctx p a = Some (Some (v, p', []), a')
+      | None => sem K toks spn (S (S (S (S n)))) (text_newline (PFun fnl) cr lf) ctx p a = Some (None, a')
+      end.
+Proof. exact newline_lang. Qed.
+
 (* non-vacuity: int(10), keyword and newline on concrete inputs through the machine *)
 Example C14_example :
   let digit := PTokIn [48; 49; 50; 51; 52; 53; 54; 55; 56; 57]%N in
@@ -70,3 +81,4 @@ Print Assumptions C14_digits_language.
 Print Assumptions C14_int_language.
 Print Assumptions C14_ident_language.
 Print Assumptions C14_whitespace_language.
+Print Assumptions C14_newline_language.
